@@ -642,9 +642,9 @@ structure WireOk (m p : Bytes) (qs : List (Bytes × Bytes)) (hs : Headers) (body
     | none => body = []
     | some v => v = toDec body.length
 
-theorem recover_wire (m p : Bytes) (qs : List (Bytes × Bytes)) (hs : Headers) (body : Bytes) (w : WireOk m p qs hs body) :
-    recover (joinCrlf ((m ++ [32] ++ target p qs ++ [32] ++ Gen.requestVersion) :: hs.map (fun h => packHeader h.1 h.2) ++ [[], []]) ++ body)
-      = .ok ⟨m, p, qs, lowered hs, body⟩ := by
+theorem recover_wire (m p : Bytes) (qs : List (Bytes × Bytes)) (hs : Headers) (body tail : Bytes) (w : WireOk m p qs hs body) :
+    recover (joinCrlf ((m ++ [32] ++ target p qs ++ [32] ++ Gen.requestVersion) :: hs.map (fun h => packHeader h.1 h.2) ++ [[], []]) ++ body ++ tail)
+      = .ok (⟨m, p, qs, lowered hs, body⟩, tail) := by
   obtain ⟨hmne, hmb⟩ := methods_table m w.method
   obtain ⟨v1, v2, v3, v4⟩ := version_facts
   have htb := target_bytes p qs w.pathBytes w.query
@@ -665,7 +665,7 @@ theorem recover_wire (m p : Bytes) (qs : List (Bytes × Bytes)) (hs : Headers) (
     · exact (htb 10 h).2.2 rfl
     · omega
     · exact (v4 10 h).2 rfl
-  rw [joinCrlf_blank, List.flatMap_cons, List.append_assoc, List.append_assoc]
+  rw [List.append_assoc, joinCrlf_blank, List.flatMap_cons, List.append_assoc, List.append_assoc]
   unfold recover
   rw [← List.append_assoc _ crlf, takeLine_crlf _ _ hstart10]
   have hne : (m ++ [32] ++ target p qs ++ [32] ++ Gen.requestVersion).isEmpty = false := by
@@ -680,7 +680,7 @@ theorem recover_wire (m p : Bytes) (qs : List (Bytes × Bytes)) (hs : Headers) (
   simp only [hmc, Bool.not_true, Bool.false_eq_true, ↓reduceIte]
   rw [splitTarget_target p qs w.path w.pathBytes w.query]
   simp only []
-  rw [parseLeader_lines hs [] body _ (by
+  rw [parseLeader_lines hs [] (body ++ tail) _ (by
       have := flatMap_crlf_length (hs.map (fun h => packHeader h.1 h.2))
       simp only [List.length_map, List.length_append] at this ⊢
       omega) w.names w.values (by intro h _; rfl) w.distinct (by simpa using w.few)]
@@ -695,7 +695,7 @@ theorem recover_wire (m p : Bytes) (qs : List (Bytes × Bytes)) (hs : Headers) (
   cases hc : getKey (lit "content-length") hs with
   | none =>
     rw [hc] at hlen
-    simp only [hlen, List.length_nil, Nat.not_lt_zero, ↓reduceIte, List.take_zero, unquote_path p w.pathBytes,
+    simp only [hlen, List.nil_append, Nat.not_lt_zero, ↓reduceIte, List.take_zero, List.drop_zero, unquote_path p w.pathBytes,
       parseQsl_packQs qs w.query]
   | some v =>
     rw [hc] at hlen
@@ -706,7 +706,8 @@ theorem recover_wire (m p : Bytes) (qs : List (Bytes × Bytes)) (hs : Headers) (
       | cons _ _ => rfl
     have hv : v = toDec body.length := hlen
     subst hv
-    simp only [hve, Bool.false_eq_true, ↓reduceIte, parseDec_toDec, Nat.lt_irrefl, List.take_length,
+    have hnl : ¬ (body ++ tail).length < body.length := by simp
+    simp only [hve, Bool.false_eq_true, ↓reduceIte, parseDec_toDec, hnl, List.take_left, List.drop_left,
       unquote_path p w.pathBytes, parseQsl_packQs qs w.query]
 
 end Hio.Http.Req
@@ -718,16 +719,11 @@ open Hio.Http
 
 def isGet (s : Spec) : Bool := upper s.method == lit "GET"
 
-/-- the body that is sent: nothing with GET, else JSON text / form encoding / raw body -/
-def builtBody (s : Spec) : Bytes :=
-  if isGet s then [] else if s.bkind == 1 then s.raw else if s.bkind == 2 then formBody s.form else s.raw
+/-- the body that is sent: nothing with GET, else JSON text / form encoding (urlencoded or multipart) / raw body -/
+def builtBody (s : Spec) : Bytes := (bodyAndHeaders s).1
 
 /-- the caller's header fields after the Content-Type override of JSON / form bodies -/
-def sentHeaders (s : Spec) : Headers :=
-  if isGet s then s.headers
-  else if s.bkind == 1 then setKey (lit "content-type") Gen.jsonContentType s.headers
-  else if s.bkind == 2 then setKey (lit "content-type") Gen.formContentType s.headers
-  else s.headers
+def sentHeaders (s : Spec) : Headers := (bodyAndHeaders s).2
 
 /-- every header field on the wire, in order: defaults first, then the caller's -/
 def builtHeaders (s : Spec) : Headers :=
@@ -736,34 +732,43 @@ def builtHeaders (s : Spec) : Headers :=
   (if !(builtBody s).isEmpty && !hasKey (lit "content-length") (sentHeaders s) then [(lit "Content-Length", toDec (builtBody s).length)] else []) ++
   sentHeaders s
 
-theorem build_eq (s : Spec) (hne : s.path ≠ []) (hclean : stripUnsafe s.path = s.path) (hok : pathOk s.path = true)
-    (hascii : isAscii s.method = true) (hmp : (!isGet s && s.bkind == 2 && multipart s) = false) :
-    build s = .ok (joinCrlf ((upper s.method ++ [32] ++ target s.path s.qargs ++ [32] ++ Gen.requestVersion) ::
+/-- the path proper of what the caller passed as path -/
+def pathOf (s : Spec) : Bytes := (urlParts s.path).1
+
+/-- the query arguments that go on the wire: the dict, updated by the arguments written on the path -/
+def queryOf (s : Spec) : List (Bytes × Bytes) := mergeQs s.qargs (parsePathQs (urlParts s.path).2)
+
+theorem build_eq (s : Spec) (hne : s.path ≠ []) (hclean : stripUnsafe s.path = s.path) (hok : pathOk (pathOf s) = true)
+    (hascii : isAscii s.method = true) :
+    build s = .ok (joinCrlf ((upper s.method ++ [32] ++ target (pathOf s) (queryOf s) ++ [32] ++ Gen.requestVersion) ::
       (builtHeaders s).map (fun h => packHeader h.1 h.2) ++ [[], []]) ++ builtBody s) := by
   have hpe : s.path.isEmpty = false := by cases h : s.path with | nil => exact absurd h hne | cons _ _ => rfl
-  have hcond : ¬ ((upper s.method != lit "GET" && s.bkind == 2 && multipart s) = true) := by
-    have : (upper s.method != lit "GET") = !isGet s := by simp [isGet, bne]
-    rw [this, hmp]; decide
+  unfold pathOf at hok
   unfold build buildParts
   simp only [hpe, Bool.false_eq_true, ↓reduceIte, hclean, hok, hascii, Bool.not_true, Bool.or_self]
-  rw [if_neg hcond]
-  simp only []
-  unfold builtHeaders builtBody sentHeaders isGet target
+  unfold builtHeaders builtBody sentHeaders target pathOf queryOf
   have hite : ∀ (c : Prop) [Decidable c] (x : Bytes × Bytes),
       List.map (fun h : Bytes × Bytes => packHeader h.1 h.2) (if c then [] else [x]) = if c then [] else [packHeader x.1 x.2] := by
     intro c _ x; split <;> rfl
   have hite2 : ∀ (c : Prop) [Decidable c] (x : Bytes × Bytes),
       List.map (fun h : Bytes × Bytes => packHeader h.1 h.2) (if c then [x] else []) = if c then [packHeader x.1 x.2] else [] := by
     intro c _ x; split <;> rfl
-  by_cases hg : (upper s.method == lit "GET") = true
-  · simp [hg, hite]
-  · by_cases h1 : (s.bkind == 1) = true
-    · simp [hg, h1, hite, hite2]
-    · by_cases h2 : (s.bkind == 2) = true
-      · simp [hg, h1, h2, hite, hite2]
-      · simp [hg, h1, h2, hite, hite2]
+  simp [hite, hite2]
 
-/-- a caller's header field is on the wire unchanged, unless it is the Content-Type that a JSON / form body replaces -/
+theorem splitAt1_none_of_contains (c : Nat) (l : Bytes) (h : l.contains c = false) : splitAt1 c l = none := by
+  apply splitAt1_none
+  intro hm
+  have : l.contains c = true := List.contains_iff_mem.mpr hm
+  rw [h] at this; exact absurd this (by decide)
+
+/-- a plain path (no `?`, no `#`) is its own path part and carries no query -/
+theorem urlParts_plain (p : Bytes) (hok : pathOk p = true) : urlParts p = (p, []) := by
+  unfold pathOk at hok
+  simp only [Bool.and_eq_true, Bool.not_eq_true'] at hok
+  obtain ⟨⟨_, h63⟩, h35⟩ := hok
+  unfold urlParts
+  simp only [splitAt1_none_of_contains 35 p h35, splitAt1_none_of_contains 63 p h63]
+
 theorem mem_setKey_of_ne (k v : Bytes) (hs : Headers) (x : Bytes × Bytes) (hx : x ∈ hs) (hne : (lower x.1 == k) = false) :
     x ∈ setKey k v hs := by
   induction hs with
@@ -776,12 +781,13 @@ theorem mem_setKey_of_ne (k v : Bytes) (hs : Headers) (x : Bytes × Bytes) (hx :
       · exact List.mem_cons_of_mem _ (List.mem_filter.mpr ⟨hx, by simp [bne, hne]⟩)
       · exact List.mem_cons_of_mem _ (ih hx)
 
+/-- a caller's header field is on the wire unchanged, unless it is the Content-Type that a JSON / form body replaces -/
 theorem spec_header_on_wire (s : Spec) (x : Bytes × Bytes) (hx : x ∈ s.headers)
     (hct : (lower x.1 == lit "content-type") = false ∨ isGet s = true ∨ (s.bkind != 1 && s.bkind != 2) = true) :
     x ∈ builtHeaders s := by
   unfold builtHeaders
   apply List.mem_append_right
-  unfold sentHeaders
+  unfold sentHeaders bodyAndHeaders
   split
   · exact hx
   · rename_i hg
@@ -789,7 +795,9 @@ theorem spec_header_on_wire (s : Spec) (x : Bytes × Bytes) (hx : x ∈ s.header
     · split
       · exact mem_setKey_of_ne _ _ _ _ hx h
       · split
-        · exact mem_setKey_of_ne _ _ _ _ hx h
+        · split
+          · exact mem_setKey_of_ne _ _ _ _ hx h
+          · exact mem_setKey_of_ne _ _ _ _ hx h
         · exact hx
     · exact absurd h hg
     · simp only [Bool.and_eq_true, bne_iff_ne, ne_eq] at h
@@ -797,5 +805,112 @@ theorem spec_header_on_wire (s : Spec) (x : Bytes × Bytes) (hx : x ∈ s.header
       have h2 : (s.bkind == 2) = false := by simpa using h.2
       simp only [h1, h2, Bool.false_eq_true, ↓reduceIte]
       exact hx
+
+/-! ### a query string written on the path -/
+
+theorem quotePlus_no_semi (bs : Bytes) : 59 ∉ quotePlus bs := by
+  intro h
+  rcases mem_quotePlus _ _ h with h | h | h | ⟨d, h⟩
+  · have : alwaysSafe 59 = false := by decide
+    rw [this] at h; exact absurd h (by decide)
+  · omega
+  · omega
+  · unfold hexU at h; split at h <;> omega
+
+theorem packQs_no_semi (ps : List (Bytes × Bytes)) : 59 ∉ packQs ps := by
+  intro hc
+  rcases joinAmp_mem _ 59 hc with h | ⟨s, hs, hcs⟩
+  · omega
+  · rcases List.mem_map.mp hs with ⟨kv, _, rfl⟩
+    simp only [List.append_assoc, List.mem_append, List.mem_singleton] at hcs
+    rcases hcs with h | h | h
+    · exact quotePlus_no_semi _ h
+    · omega
+    · exact quotePlus_no_semi _ h
+
+theorem parsePart_pack (k v : Bytes) (hk : BytesOk k) (hv : BytesOk v) : parsePart (encField (k, v)) = (k, v) := by
+  unfold parsePart encField
+  rw [List.append_assoc, List.singleton_append, splitAt1_append _ _ _ (quotePlus_no_eq k)]
+  simp only [quotePlus]
+  rw [unqPlus_quotePlusWith _ rfl rfl k hk, unqPlus_quotePlusWith _ rfl rfl v hv]
+
+/-- a query string in the standard form encoding, written on the path, is read back as exactly its arguments -/
+theorem parsePathQs_packQs (ps : List (Bytes × Bytes)) (hb : ∀ kv ∈ ps, BytesOk kv.1 ∧ BytesOk kv.2) :
+    parsePathQs (packQs ps) = ps := by
+  cases hq : ps with
+  | nil => simp [packQs, joinAmp, parsePathQs]
+  | cons kv rest =>
+    rw [← hq]
+    have hne : ps.map encField ≠ [] := by rw [hq]; simp
+    have hjoin : joinAmp (ps.map encField) ≠ [] := by
+      intro e
+      exact hne (joinAmp_eq_nil _ (by intro s hs; rcases List.mem_map.mp hs with ⟨kv, _, rfl⟩; exact encField_ne_nil kv) e)
+    have hpk : packQs ps = joinAmp (ps.map encField) := rfl
+    have hemp : (packQs ps).isEmpty = false := by
+      rw [hpk]; cases h : joinAmp (ps.map encField) with
+      | nil => exact absurd h hjoin
+      | cons _ _ => rfl
+    have hsemi : (packQs ps).contains 59 = false := by
+      cases h : (packQs ps).contains 59 with
+      | false => rfl
+      | true => exact absurd (List.contains_iff_mem.mp h) (packQs_no_semi ps)
+    have hparts : (queryParts (packQs ps)).filter (fun f => !f.isEmpty) = ps.map encField := by
+      unfold queryParts
+      rw [hsemi]
+      simp only [Bool.false_eq_true, ↓reduceIte]
+      have hfilter : (ps.map encField).filter (fun f => !f.isEmpty) = ps.map encField := by
+        apply List.filter_eq_self.mpr
+        intro s hs
+        rcases List.mem_map.mp hs with ⟨kv, _, rfl⟩
+        cases h : encField kv with
+        | nil => exact absurd h (encField_ne_nil kv)
+        | cons _ _ => rfl
+      split
+      · rw [hpk, splitOn_joinAmp _ hne (by intro s hs; rcases List.mem_map.mp hs with ⟨kv, _, rfl⟩; exact encField_no_amp kv)]
+        exact hfilter
+      · rename_i hamp
+        -- no '&': exactly one field
+        have hone : ∃ kv, ps = [kv] := by
+          cases hps : ps with
+          | nil => rw [hps] at hne; simp at hne
+          | cons a r =>
+            cases r with
+            | nil => exact ⟨a, rfl⟩
+            | cons b r' =>
+              exfalso
+              apply hamp
+              apply List.contains_iff_mem.mpr
+              rw [hpk, hps]
+              simp [joinAmp]
+        obtain ⟨kv1, h1⟩ := hone
+        rw [hpk, h1]
+        simp only [List.map_cons, List.map_nil, joinAmp, List.filter_cons, List.filter_nil]
+        have : (encField kv1).isEmpty = false := by
+          cases h : encField kv1 with
+          | nil => exact absurd h (encField_ne_nil kv1)
+          | cons _ _ => rfl
+        simp [this]
+    unfold parsePathQs
+    rw [hemp]
+    simp only [Bool.false_eq_true, ↓reduceIte, hparts, List.map_map]
+    have : ∀ kv ∈ ps, (parsePart ∘ encField) kv = kv := by
+      intro kv hkv
+      obtain ⟨h1, h2⟩ := hb kv hkv
+      exact parsePart_pack kv.1 kv.2 h1 h2
+    calc ps.map (parsePart ∘ encField) = ps.map id := List.map_congr_left this
+      _ = ps := List.map_id _
+
+/-- `path?query` splits into the path and the query as written (no `#` anywhere, no `?` in the path) -/
+theorem urlParts_with_query (p q : Bytes) (hp35 : 35 ∉ p) (hp63 : 63 ∉ p) (hq35 : 35 ∉ q) :
+    urlParts (p ++ 63 :: q) = (p, q) := by
+  unfold urlParts
+  have h35 : 35 ∉ p ++ 63 :: q := by
+    intro h
+    rcases List.mem_append.mp h with h | h
+    · exact hp35 h
+    · rcases List.mem_cons.mp h with h | h
+      · omega
+      · exact hq35 h
+  simp only [splitAt1_none 35 _ h35, splitAt1_append 63 p q hp63]
 
 end Hio.Http.Req
